@@ -4,6 +4,7 @@ import (
 	"fmt"
 	"go/token"
 	"go/types"
+	"sort"
 	"strings"
 
 	"golang.org/x/tools/go/ssa"
@@ -572,4 +573,136 @@ func unOpAddr(v ssa.Value) ssa.Value {
 		return u.X
 	}
 	return v
+}
+
+// checkOverrides: a type that declares its own Pack (or Size) while its Unpack
+// comes from an embedded field (or the other way round) pairs an encoder and
+// a decoder written at different levels.  The override is judged against the
+// method it hides: evaluated on the same receiver it must write the same
+// bytes (a plain forwarding wrapper does); anything else is reported, since
+// the decoder was written for the hidden encoder.
+func checkOverrides(c *Check, p *Program, rule string) {
+	n := 0
+	for _, nt := range p.allNamedTypes() {
+		path := nt.Obj().Pkg().Path()
+		if path != knxnetPath && path != cemiPath {
+			continue
+		}
+		st, ok := nt.Underlying().(*types.Struct)
+		if !ok {
+			continue
+		}
+		declared := map[string]*ssa.Function{}
+		for i := 0; i < nt.NumMethods(); i++ {
+			m := nt.Method(i)
+			if f := p.SSA.FuncValue(m); f != nil && len(f.Blocks) > 0 {
+				declared[m.Name()] = f
+			}
+		}
+		ms := types.NewMethodSet(types.NewPointer(nt))
+		promotedFrom := func(name string) (fieldPath string, fn *ssa.Function) {
+			sel := ms.Lookup(nt.Obj().Pkg(), name)
+			if sel == nil || len(sel.Index()) < 2 {
+				return "", nil
+			}
+			t := types.Type(nt)
+			fp := ""
+			for _, i := range sel.Index()[:len(sel.Index())-1] {
+				s, ok := deref(t).Underlying().(*types.Struct)
+				if !ok {
+					return "", nil
+				}
+				fp += "." + s.Field(i).Name()
+				t = s.Field(i).Type()
+			}
+			f, _ := sel.Obj().(*types.Func)
+			if f == nil {
+				return "", nil
+			}
+			return fp, p.SSA.FuncValue(f)
+		}
+		_ = st
+		for _, pair := range [][2]string{{"Pack", "Unpack"}, {"Unpack", "Pack"}} {
+			own, other := declared[pair[0]], pair[1]
+			if own == nil || declared[other] != nil {
+				continue
+			}
+			fp, _ := promotedFrom(other)
+			if fp == "" {
+				continue // the counterpart does not exist at all (one-directional service) or is declared here too
+			}
+			n++
+			tn := typeName(nt)
+			pos := p.Pos(own.Pos())
+			if pair[0] != "Pack" {
+				c.Fail(rule, tn+" overrides Unpack but inherits Pack", pos, "decoder and encoder of "+tn+" are written at different levels (Pack comes from the embedded"+fp+"): their agreement is not established")
+				continue
+			}
+			// the hidden Pack of the embedded field, evaluated on r.<field>
+			var hidden *ssa.Function
+			{
+				t := types.Type(nt)
+				for _, name := range strings.Split(strings.TrimPrefix(fp, "."), ".") {
+					s, ok := deref(t).Underlying().(*types.Struct)
+					if !ok {
+						break
+					}
+					for i := 0; i < s.NumFields(); i++ {
+						if s.Field(i).Name() == name {
+							t = s.Field(i).Type()
+						}
+					}
+				}
+				if sel := types.NewMethodSet(types.NewPointer(t)).Lookup(nt.Obj().Pkg(), "Pack"); sel != nil {
+					if f, ok := sel.Obj().(*types.Func); ok {
+						hidden = p.SSA.FuncValue(f)
+					}
+				}
+			}
+			if hidden == nil {
+				c.Fail(rule, tn+" Pack override", pos, "the Pack it hides cannot be resolved")
+				continue
+			}
+			sig := func(fn *ssa.Function, recv string) ([]string, bool) {
+				li := &layoutInterp{p: p}
+				args := []AV{li.valueOfPath(recv, fn.Params[0].Type()), avSlice{region: "buf", off: linConst(0), len: nil, name: "buffer"}}
+				var out []string
+				for _, pp := range li.run(fn, args, nil) {
+					if len(pp.notes) > 0 {
+						return nil, false
+					}
+					var ws []string
+					for _, w := range pp.writes {
+						ws = append(ws, fmt.Sprintf("%s+%s:%s:%s:%s", w.off, w.n, w.kind, w.bv, w.src))
+					}
+					sort.Strings(ws)
+					out = append(out, strings.Join(ws, "|"))
+				}
+				sort.Strings(out)
+				return out, true
+			}
+			// a plain forwarding wrapper: one nested write of the embedded value at offset 0
+			{
+				li := &layoutInterp{p: p}
+				pps := li.run(own, []AV{li.valueOfPath("r", own.Params[0].Type()), avSlice{region: "buf", off: linConst(0), len: nil, name: "buffer"}}, nil)
+				if len(pps) == 1 && len(pps[0].notes) == 0 && len(pps[0].effect) == 0 && len(pps[0].writes) == 1 {
+					w := pps[0].writes[0]
+					if w.kind == "nested" && w.off != nil && w.off.String() == "0" && strings.TrimPrefix(w.src, "&") == "r"+fp {
+						c.OK(rule, tn+" Pack override writes what the hidden Pack writes", pos, "forwards to "+FuncName(hidden)+" on the embedded value")
+						continue
+					}
+				}
+			}
+			a, okA := sig(own, "r")
+			b, okB := sig(hidden, "r"+fp)
+			same := okA && okB && len(a) == len(b)
+			for i := range a {
+				if same && a[i] != b[i] {
+					same = false
+				}
+			}
+			c.Decide(same, rule, tn+" Pack override writes what the hidden Pack writes", pos, "byte for byte the same as "+FuncName(hidden)+" on the embedded value", tn+" declares its own Pack but decodes with the Unpack promoted from the embedded"+fp+": the override does not write the same bytes as the Pack it hides, so decoding an encoded value does not give the value back")
+		}
+	}
+	c.Note("types overriding one direction of an embedded codec: %d", n)
 }
